@@ -1114,6 +1114,104 @@ def witness_status(I):
     return st
 
 
+
+# ------------------------------------------------------------------------------------------
+# live bot: the same tree driven through the real Config plugin commands
+# ------------------------------------------------------------------------------------------
+LIVE_NAME = 'supybot.plugins.Config.vtvar'
+_live = {}
+
+def live_bot():
+    if 'b' not in _live:
+        b = bot.full(plugins=('Owner', 'Misc', 'User', 'Admin', 'Config', 'Channel', 'Utilities'))
+        bot.register_welcome(b)
+        u = b.ircdb.users.newUser(); u.name = 'vtowner'; u.addCapability('owner'); u.addHostmask('own!u@h')
+        b.ircdb.users.setUser(u)
+        _live['b'] = b
+    return _live['b']
+
+def stream_live(I, R, r, n_hist):
+    b = live_bot()
+    conf = b.conf; reg = b.registry
+    grp = conf.supybot.plugins.Config
+    net = b.irc.network
+    def say(t):
+        out = bot.feed(b, 'own!u@h', b.irc.nick, t)
+        txt = ' '.join(m.args[-1] for m in out)
+        return 'done' if 'The operation succeeded' in txt else ('invalid' if txt else 'silent')
+    TOK = {'bool': ['on', 'off', 'toggle', 'True', 'maybe', '2'], 'int': ['5', '-3', '12', 'x', '1_0', '0'], 'pos': ['5', '0', '-1', '7'],
+           'plain': ['abc', 'x1', '"a b"', '"  pad "', 'q-z:'], 'space': ['a', '"a b c"', '"x  y"']}
+    UNQ = lambda t: t[1:-1] if t.startswith('"') else t
+    probes = [(n, c) for n in (None, net) for c in (None, '#x', '#y')]
+    for h in range(n_hist):
+        k = r.choice(list(TOK))
+        default = {'bool': False, 'int': 3, 'pos': 3, 'plain': 'dflt', 'space': ['d1', 'd2']}[k]
+        try: grp.unregister('vtvar')
+        except Exception: pass
+        for key in [kk for kk in reg._cache.keys() if kk.lower().startswith(LIVE_NAME.lower())]:
+            del reg._cache[key]
+        node = I.classes[k](default, 'help for the live variable')
+        node = conf.registerChannelValue(grp, 'vtvar', node)
+        lines = ['t_boot\t%s\t%s\t%s\t1\t1\t%s\t-' % (k, PR(''), enc_val(canon_value(node.value)), wire.enc(LIVE_NAME))]
+        impl = ['up']; ops = []; tags = set(['live', 'live-' + k]); fails = []
+        def dump():
+            out = [(node._name, canon_value(node.value))] if node._wasSet else []
+            out += [(nm, canon_value(nd.value)) for nm, nd in node.getValues(getChildren=True) if hasattr(nd, 'value')]
+            return '-' if not out else ','.join(wire.enc(nm) + '=' + enc_val(v) for nm, v in out)
+        def probe_all():
+            res = {}
+            for (pn, pc) in probes:
+                try: v = 'val\t' + enc_val(canon_value(node.getSpecific(network=pn, channel=pc)()))
+                except reg.InvalidRegistryValue: v = 'invalid'
+                lines.append('t_get\t%s\t%s\t1\t1' % (wire.enc_opt(pn), wire.enc_opt(pc))); impl.append(v); res[(pn, pc)] = v
+            return res
+        for step in range(r.randint(2, 8)):
+            before = probe_all()
+            x = r.random(); tok = r.choice(TOK[k]); text = UNQ(tok); c = r.choice(['#x', '#y'])
+            if x < 0.25:
+                cmd = 'config %s %s' % (LIVE_NAME, tok); res = say(cmd)
+                lines.append('t_set\t%s\tbase' % wire.enc(text)); impl.append(res); w = ('base',)
+            elif x < 0.45:
+                cmd = 'config network %s %s' % (LIVE_NAME, tok); res = say(cmd)
+                lines.append('t_set\t%s\tnet\t%s' % (wire.enc(text), wire.enc(net))); impl.append(res); w = ('net', net)
+            elif x < 0.70:
+                star = r.random() < 0.3
+                cmd = 'config channel %s%s %s %s' % ('* ' if star else '', c, LIVE_NAME, tok); res = say(cmd)
+                # the command sets the old-style channel value and (unless '*') the network+channel value
+                lines.append('t_set\t%s\tchan\t%s' % (wire.enc(text), wire.enc(c)))
+                if star:
+                    impl.append(res)
+                else:
+                    # both assignments succeed or the first one already fails (same text, same class); toggle flips each node
+                    impl.append('done' if res == 'done' else 'invalid')
+                    if res == 'done':
+                        lines.append('t_set\t%s\tnetchan\t%s\t%s' % (wire.enc(text), wire.enc(net), wire.enc(c))); impl.append('done')
+                w = ('chan', c)
+            elif x < 0.82:
+                star = r.random() < 0.3
+                cmd = 'config reset channel %s%s %s' % ('* ' if star else '', c, LIVE_NAME); res = say(cmd)
+                lines.append('t_reset_chan\t%s\t%s' % ('~' if star else wire.enc(net), wire.enc(c))); impl.append(res); w = None
+            elif x < 0.90:
+                cmd = 'config reset network %s' % LIVE_NAME; res = say(cmd)
+                lines.append('t_reset_net\t%s' % wire.enc(net)); impl.append(res); w = None
+            else:
+                cmd = 'config setdefault %s' % LIVE_NAME; res = say(cmd)
+                dtext = str(I.classes[k](default, ''))
+                lines.append('t_set\t%s\tbase' % wire.enc(dtext)); impl.append(res); w = ('base',)
+            ops.append(cmd); tags.add('live-' + cmd.split(' ')[1] if cmd.split(' ')[1] in ('network', 'channel', 'reset', 'setdefault') else 'live-config')
+            tags.add('live-' + res)
+            after = probe_all()
+            if res == 'invalid' and after != before:
+                fails.append('%r was refused but changed what getSpecific returns' % cmd)
+            if res == 'done' and w is not None:
+                _check_locality(fails, w, before, after, cmd)
+            lines.append('t_dump'); impl.append(dump())
+        cse = Case({'op': 'live', 'class': k, 'default': default, 'commands': ops}, impl='\n'.join(impl), oracle_ok=not fails,
+                   oracle_msg='; '.join(fails[:3]), kind='live', tags=sorted(tags))
+        R.add_multi(cse, lines, lambda outs, c_, ls: '\n'.join(outs))
+    try: grp.unregister('vtvar')
+    except Exception: pass
+
 # ------------------------------------------------------------------------------------------
 # corpus: minimised past failures and finding witnesses (run first)
 # ------------------------------------------------------------------------------------------
@@ -1212,6 +1310,7 @@ def explore(ctx, scale, seed_stream='c15'):
     stream_close(I, R, r, 400 * scale)
     stream_oracle_only(I, R, r, 1500 * scale)
     stream_tree(I, R, r, 250 * scale)
+    stream_live(I, R, r, 40 * min(scale, 10))
     return I, R
 
 def run(ctx):
